@@ -358,3 +358,89 @@ Example toy_addresses :
       byron_path_from_address toy atoy mb addr = Ok [2 ^ 31 + 3; 2 ^ 31 + 4].
 Proof. exact toy_addresses_proof. Qed.
 Print Assumptions toy_addresses.
+
+(* ===== linked to the concrete codec models ===== *)
+(* Shelley addresses on THE Bech32 codec of Model/Bech32.v (the C10 model): the [b32_enc]/[b32_dec] fields of
+   [abackend] and the second clause of [shelley_laws] ("forall hrp b, b32_dec hrp (b32_enc hrp b) = Some b") are
+   gone.  That clause is false of the real codec for ill-formed HRPs and for non-byte payloads; what the link
+   needs instead is (1) the four configured HRPs are well-formed -- proved by computation on the regenerated
+   table, [shelley_hrps_wf] -- and (2) Blake2b-224 returns BYTES, an oracle law [shelley_laws] did not list
+   (it is in [byron_laws]).  Remaining oracles: Blake2b-224 (28 bytes), the ed25519 point decoding, and for
+   the wallet methods the Khovratovich-Law derivation.  [encode_payment_c] etc.: Model/LinkAdaShelley.v. *)
+From BU Require Import Model.Bech32 Model.LinkAdaShelley.
+From BU Require Lemmas.Bech32 Lemmas.LinkBech32 Lemmas.LinkAdaShelley.
+
+Definition blake224_laws (a : abackend) : Prop :=
+  (forall x, length (blake224 a x) = 28%nat) /\ (forall x, bytes_ok (blake224 a x)).
+
+Theorem shelley_hrps_wf : forall net, In net ada_nets ->
+  Lemmas.Bech32.hrp_enc_ok (net_hrp net) /\ Lemmas.Bech32.hrp_enc_ok (net_stake_hrp net).
+Proof. exact LinkAdaShelley.ada_hrps_ok. Qed.
+Print Assumptions shelley_hrps_wf.
+
+Theorem shelley_layout_concrete : forall o a, blake224_laws a -> forall net pub pub_sk s, In net ada_nets ->
+  encode_payment_c (blake224 a) (G o) (pdec o) net pub pub_sk = Ok s ->
+  exists pk sk, pub_from_bytes (G o) (pdec o) pub = Ok pk /\ pub_from_bytes (G o) (pdec o) pub_sk = Ok sk /\
+    bech32_encode (net_hrp net) ([0 * 16 + net_tag net] ++ blake224 a pk ++ blake224 a sk) = Ok s.
+Proof. intros o a _. exact (LinkAdaShelley.encode_payment_c_layout (blake224 a) (G o) (pdec o)). Qed.
+Print Assumptions shelley_layout_concrete.
+
+(* the encoder returns whenever both keys are accepted *)
+Theorem shelley_encode_total_concrete : forall o a, blake224_laws a -> forall net pub pub_sk pk sk, In net ada_nets ->
+  pub_from_bytes (G o) (pdec o) pub = Ok pk -> pub_from_bytes (G o) (pdec o) pub_sk = Ok sk ->
+  exists s, encode_payment_c (blake224 a) (G o) (pdec o) net pub pub_sk = Ok s.
+Proof. intros o a (L1 & L2). exact (LinkAdaShelley.encode_payment_c_total (blake224 a) (G o) (pdec o) L2). Qed.
+Print Assumptions shelley_encode_total_concrete.
+
+Theorem shelley_dec_enc_concrete : forall o a, blake224_laws a -> forall net pub pub_sk s, In net ada_nets ->
+  encode_payment_c (blake224 a) (G o) (pdec o) net pub pub_sk = Ok s ->
+  exists pk sk, pub_from_bytes (G o) (pdec o) pub = Ok pk /\ pub_from_bytes (G o) (pdec o) pub_sk = Ok sk /\
+    decode_payment_c net s = Ok (blake224 a pk ++ blake224 a sk).
+Proof. intros o a (L1 & L2). exact (LinkAdaShelley.decode_encode_payment_c (blake224 a) (G o) (pdec o) L1 L2). Qed.
+Print Assumptions shelley_dec_enc_concrete.
+
+Theorem reward_dec_enc_concrete : forall o a, blake224_laws a -> forall net pub_sk s, In net ada_nets ->
+  encode_staking_c (blake224 a) (G o) (pdec o) net pub_sk = Ok s ->
+  exists sk, pub_from_bytes (G o) (pdec o) pub_sk = Ok sk /\ decode_staking_c net s = Ok (blake224 a sk).
+Proof. intros o a (L1 & L2). exact (LinkAdaShelley.decode_encode_staking_c (blake224 a) (G o) (pdec o) L1 L2). Qed.
+Print Assumptions reward_dec_enc_concrete.
+
+Theorem staking_key_is_2_0_concrete : forall o a, blake224_laws a -> forall net account change idx, In net ada_nets ->
+  (forall s, shelley_address_c (blake224 a) (G o) (pdec o) (derive o (kh_derivator o)) net account change idx = Ok s ->
+     exists st k pk sk, derive o (kh_derivator o) account [2%Z; 0%Z] = Ok st /\
+       derive o (kh_derivator o) account [change; idx] = Ok k /\
+       pub_from_bytes (G o) (pdec o) (n_pub k) = Ok pk /\ pub_from_bytes (G o) (pdec o) (n_pub st) = Ok sk /\
+       bech32_encode (net_hrp net) ([0 * 16 + net_tag net] ++ blake224 a pk ++ blake224 a sk) = Ok s /\
+       decode_payment_c net s = Ok (blake224 a pk ++ blake224 a sk)) /\
+  (forall s, shelley_staking_address_c (blake224 a) (G o) (pdec o) (derive o (kh_derivator o)) net account = Ok s ->
+     exists st sk, derive o (kh_derivator o) account [2%Z; 0%Z] = Ok st /\
+       pub_from_bytes (G o) (pdec o) (n_pub st) = Ok sk /\
+       bech32_encode (net_stake_hrp net) ([14 * 16 + net_tag net] ++ blake224 a sk) = Ok s /\
+       decode_staking_c net s = Ok (blake224 a sk)).
+Proof.
+  intros o a (L1 & L2) net account change idx Hn. split.
+  - intros s. exact (LinkAdaShelley.shelley_address_c_layout (blake224 a) (G o) (pdec o) L1 L2
+                       (derive o (kh_derivator o)) net account change idx s Hn).
+  - intros s. exact (LinkAdaShelley.shelley_staking_address_c_layout (blake224 a) (G o) (pdec o) L1 L2
+                       (derive o (kh_derivator o)) net account s Hn).
+Qed.
+Print Assumptions staking_key_is_2_0_concrete.
+
+(* the decoders by themselves involve no oracle: refusals are ValueError only, and an accepted payment address is,
+   up to letter case, THE encoding of header || the returned hashes (canonicity inherited from C10) *)
+Theorem shelley_decoder_errors_concrete : forall net s e,
+  (decode_payment_c net s = Err e -> e = ValueError) /\ (decode_staking_c net s = Err e -> e = ValueError).
+Proof. intros net s e. exact (conj (LinkAdaShelley.decode_payment_c_err net s e) (LinkAdaShelley.decode_staking_c_err net s e)). Qed.
+Print Assumptions shelley_decoder_errors_concrete.
+
+Theorem shelley_accepted_is_canonical_concrete : forall net s r, In net ada_nets -> decode_payment_c net s = Ok r ->
+  length r = 56%nat /\ bech32_encode (net_hrp net) ([0 * 16 + net_tag net] ++ r) = Ok (Bech32Str.py_lower s).
+Proof. exact LinkAdaShelley.decode_payment_c_inv. Qed.
+Print Assumptions shelley_accepted_is_canonical_concrete.
+
+(* the abstract law of [shelley_laws] is false of the codec (upper-case HRP; see also C05 [slip32_law_false_of_codec]) *)
+Theorem shelley_law_false_of_codec :
+  let s := [88; 49; 113; 113; 108; 104; 48; 122; 53; 51] in
+  bech32_encode [88] [0] = Ok s /\ b32_dec_c [88] s = None.
+Proof. exact (conj (proj1 LinkBech32.bech32_rt_fails_uppercase_hrp) LinkAdaShelley.b32_dec_c_uppercase). Qed.
+Print Assumptions shelley_law_false_of_codec.
